@@ -544,6 +544,17 @@ func c08Judge(r *report.Run, w *ws.Workspace, d *tsData) {
 				viol("ts_go", "ts_client_sent_nothing", str(rec, "thrown"))
 				return
 			}
+			// base URL with a path prefix: same request, the prefix in front (trailing slashes of the base are not significant)
+			if pu := str(rec, "prefixedURL"); pu != "" {
+				if rq, ok := rec["request"].(map[string]any); ok {
+					want := "http://verif.test/gw/api" + strings.TrimPrefix(str(rq, "url"), "http://verif.test")
+					if pu != want {
+						viol("ts_client_base_prefix", "base_url_prefix_lost", fmt.Sprintf("client with base http://verif.test/gw/api/ requested %s, want %s", pu, want))
+					} else {
+						r.Case(cellBase+",pair=ts_client_base_prefix", "prefix_kept", true)
+					}
+				}
+			}
 			sv := d.served[id]
 			if sv == nil {
 				viol("ts_go", "no_response", "request was not replayed: "+str(rec, "request"))
